@@ -315,7 +315,13 @@ func (e *c16Env) handleProxy(w http.ResponseWriter, r *http.Request) {
 	case 'R': // allowed hostname, but a non-TLS scheme while AllowNonTLSRelay is off for this session
 		w.Write(c16PollBody(s.offer, e.relayURL(idx)))
 	case 'p':
-		w.Write(c16PollBody(`{"type":"offer","sdp":"garbage"}`, e.relayURL(idx)))
+		// a session description the peer connection cannot be made from; which one depends on the session's index: an
+		// offer with an unparsable body, and well-formed descriptions of the three other types (SetRemoteDescription
+		// refuses an answer, a provisional answer and a rollback in the stable state)
+		const minimal = `v=0\r\no=- 0 0 IN IP4 0.0.0.0\r\ns=-\r\nt=0 0\r\n`
+		unusable := []string{`{"type":"offer","sdp":"garbage"}`, `{"type":"answer","sdp":"` + minimal + `"}`,
+			`{"type":"pranswer","sdp":"garbage"}`, `{"type":"rollback","sdp":"` + minimal + `"}`}
+		w.Write(c16PollBody(unusable[idx%len(unusable)], e.relayURL(idx)))
 	case 'q':
 		w.Write(c16PollBody(s.offer, "ws://127.0.0.1:1/"))
 	case 'Y':
